@@ -572,18 +572,24 @@ public:
       abs_dom_t callee_ctx_inv(this->m_inv);
       // --- matching formal and actual parameters
       // XXX: propagating down
+      //
+      // Caller and callee can share variable names (e.g., foo(b,a)
+      // where foo's formal parameters are (a,b)) so the actual
+      // parameters are first propagated to the summary's internal
+      // (unique) input names.
       unsigned i = 0;
       const std::vector<variable_t> &inputs = summ.get_inputs();
-      for (const variable_t &p : inputs) {
+      const std::vector<variable_t> &internal_inputs =
+          summ.get_renamed_inputs();
+      for (const variable_t &p : internal_inputs) {
         const variable_t &a = cs.get_arg_name(i);
-        if (!(a == p)) {
-          inter_transformer_helpers<abs_dom_t>::unify(callee_ctx_inv, p, a);
-        }
+        inter_transformer_helpers<abs_dom_t>::unify(callee_ctx_inv, p, a);
         ++i;
       }
 
       // --- project only onto formal parameters
-      callee_ctx_inv.project(inputs);
+      callee_ctx_inv.project(internal_inputs);
+      callee_ctx_inv.rename(internal_inputs, inputs);
       // --- store the callee context
       CRAB_LOG("inter", crab::outs() << "\t\tCallee context stored: "
                                      << callee_ctx_inv << "\n");
